@@ -30,11 +30,11 @@ func familyCase(r *rng) int {
 	case "shifted": // C07
 		return []int{1, 5, 5, 2, 10, 8, 12, 13, 13}[r.intn(9)]
 	case "determinism": // C04
-		return []int{0, 2, 3, 8, 8, 9, 11, 11, 5}[r.intn(9)]
+		return []int{0, 2, 3, 8, 8, 9, 11, 11, 5, 14, 14}[r.intn(11)]
 	case "hostile": // C10
 		return []int{6, 7, 7, 4, 12, 12}[r.intn(6)]
 	}
-	return r.intn(14)
+	return r.intn(15)
 }
 
 func genericInputs(r *rng, docs []corpusDoc, n int) []input {
@@ -95,6 +95,8 @@ func genericInputs(r *rng, docs []corpusDoc, n int) []input {
 			}
 			pre := []string{"", oovBlock(r, 1+r.intn(12), 2), string(synthText(r, 1+r.intn(20))) + " "}[r.intn(3)]
 			ins = append(ins, input{"at-end:" + d.name, []byte(pre + strings.Join(ws[a:], " "))})
+		case 14: // the longest exact run belongs to a partial copy below the threshold; the full copy is broken into shorter runs
+			ins = append(ins, input{"long-partial+broken-full:" + d.name, partialPlusBrokenFull(r, d.text)})
 		case 13: // q-gram hit density at / next to the detectRuns boundary, X first, last or in the middle
 			var cc *classifier.Classifier
 			if curBC != nil && r.chance(2, 3) {
@@ -157,4 +159,32 @@ func cmdMatch(seed uint64, tier, outdir string, family string) {
 	iw.close()
 	nw.close()
 	fmt.Println("match cases written")
+}
+
+// partialPlusBrokenFull: a contiguous 38-48% slice of the text (the longest exact run, below any threshold >= 0.5),
+// some unrelated words, and a full copy with two or three changed words that cut it into runs of about a third.
+func partialPlusBrokenFull(r *rng, text []byte) []byte {
+	ws := strings.Fields(string(text))
+	n := len(ws)
+	if n < 12 {
+		return text
+	}
+	a := r.intn(n / 2)
+	b := a + n*(38+r.intn(11))/100
+	if b > n {
+		b = n
+	}
+	full := append([]string(nil), ws...)
+	cuts := 2 + r.intn(2)
+	for k := 1; k <= cuts; k++ {
+		i := n*k/(cuts+1) - 2 + r.intn(5)
+		if i >= 0 && i < n {
+			full[i] = oovWords[r.intn(len(oovWords))]
+		}
+	}
+	parts := []string{strings.Join(ws[a:b], " "), oovBlock(r, 2+r.intn(30), 1), strings.Join(full, " ")}
+	if r.chance(1, 3) {
+		parts[0], parts[2] = parts[2], parts[0]
+	}
+	return []byte(strings.Join(parts, "\n"))
 }
